@@ -425,6 +425,15 @@ func c01Specs() []leafSpec {
 		vals := []string{"5", "6", `"abc"`, `"abd"`, "true", "false", "1.5", "1.50", "null", `"5"`}
 		specs = append(specs, leafSpec{"const " + ex, []gen.Rule{{Name: "const", Val: lit("true")}}, "", ex, vals})
 	}
+	// const on a type that admits every JSON kind (an enum that lists the literal and the string spelling it, or
+	// type "any"): the value must be the literal itself, not a string that spells it, and the other way round
+	for _, pair := range [][2]string{{"5", `"5"`}, {"true", `"true"`}, {"null", `"null"`}, {"1.5", `"1.5"`}, {"false", `"false"`}, {"-0", `"-0"`}} {
+		for _, ex := range []string{pair[0], pair[1]} {
+			vals := []string{pair[0], pair[1], "6", `"abc"`, "true", "null", `""`}
+			specs = append(specs, leafSpec{"const+enum " + ex, []gen.Rule{{Name: "enum", Val: gen.ListOf(lit(pair[0]), lit(pair[1]), lit("6"), lit(`"abc"`))}, {Name: "const", Val: lit("true")}}, "enum", ex, vals})
+			specs = append(specs, leafSpec{"const+any " + ex, []gen.Rule{{Name: "type", Val: lit(`"any"`)}, {Name: "const", Val: lit("true")}}, "any", ex, vals})
+		}
+	}
 	return specs
 }
 
